@@ -64,7 +64,7 @@ class Exec:
         self.steps, self.max_steps = 0, max_steps
         self.fresh_n = 0
         self.depth = 0
-        self.callee_cache = {}
+        self.callee_cache = models.__dict__.setdefault('_callee_cache', {})     # shared by every path of an exploration
         self.alloc_requests = []
         self.notes = []
         self.world = None         # shared state for models (threads, clocks, ...)
